@@ -86,13 +86,13 @@ pub fn concretise(gen: &Value) -> Result<Concrete, String> {
 }
 
 /// C01 on generated trees: real search recorded for trace validation.
-pub fn walk(behaviours: &str, trace: &mut NdjsonWriter, out: &mut Outcome) {
+pub fn walk(behaviours: &str, full: bool, trace: &mut NdjsonWriter, out: &mut Outcome) {
     let mut rng = Rng::from_env(101);
     let mut failed = 0;
     for (i, rec) in read_ndjson(behaviours).iter().enumerate() {
         match concretise(&rec["tree"]) {
             Ok(c) => {
-                crate::walk::record_program(&format!("gen{}", i), &c.text, true, &mut rng, trace, out);
+                crate::walk::record_program(&format!("gen{}", i), &c.text, full, &mut rng, trace, out);
                 if i % 53 == 0 {
                     out.sample(json!({"generated_tree_text": c.text.replace('\n', " ")}));
                 }
